@@ -12,7 +12,7 @@ RULE = (
     "scan_count, match_count; non-trivial = the control fired at least once; state = (variables, counters, flags, record)"
 )
 BOUNDS = {
-    "quick": "k=1..2 markers, all positions, 12 controls, plus every stop/skip/advance control paired with a last() form; all files of <=4 records, windows {*, 1*, 1-2, 0+2}",
+    "quick": "k=1..2 markers, all positions, 12 controls, plus every stop/skip/advance control paired with a last() form and every ordered pair of six conditional stop/skip/advance controls firing on different row kinds; all files of <=4 records, windows {*, 1*, 1-2, 0+2}",
     "thorough": "k=1..3 markers (one of them a print), all positions, 12 controls, all files of <=5 records, 9 windows",
 }
 ASSUMPTIONS = [
@@ -76,6 +76,13 @@ def programs(kmax, with_print):
                     yield cname, pos, comps
 
 
+def _other(ctrl):
+    """the same control conditioned on the OTHER row kind (#0 == "n"), so that the two controls fire on different lines too."""
+    import json
+
+    return json.loads(json.dumps(ctrl).replace('["t", "k"]', '["t", "n"]'))
+
+
 def two_control_programs():
     """one stop/skip/advance control together with a last() form (which stays the final component)."""
     for cname, ctrl in CONTROLS.items():
@@ -84,6 +91,11 @@ def two_control_programs():
         for lname in ("last()->push", "last.nocontrib()->push"):
             yield f"{cname} + {lname}", 1, [marker(0), ctrl, CONTROLS[lname]]
             yield f"{cname} + {lname}", 0, [ctrl, marker(0), CONTROLS[lname]]
+    # two stop/skip/advance controls on one line (which of them wins, and what the loser's pending effect does to later lines)
+    names = [c for c in CONTROLS if not c.startswith("last") and c not in ("stop()", "advance(1)", "advance(2)")]
+    for a in names:
+        for b in names:
+            yield f"{a} + {b}", 0, [CONTROLS[a], marker(0), _other(CONTROLS[b])]
 
 
 def files(nmax):
